@@ -129,3 +129,23 @@ class section_init:
                "self._decompressed_align == ($ch.ch_addralign if $c else header.sh_addralign)",
                "(not $c) or self._compression_type == $ch.ch_type"]
     raises = {"ELFParseError": "$c and header.sh_offset + SZ('Elf_Chdr', elffile.elfclass) > len(elffile.stream.B)"}
+
+
+from specs.contents import crc32_of, view_at
+
+
+@contract("elftools/dwarf/dwarf_util.py", "_file_crc32", props=["C11"])
+class file_crc32:
+    """the CRC-32 of everything from the current position to the end of the file, from the initial value 0
+    (the checksum a .gnu_debuglink records), whatever the chunking"""
+    params = dict(file=Stream)
+    requires = ["file.pos <= len(file.B)"]
+    ghost = {"$B": "file.B", "$p": "file.pos"}
+    returns = Int
+    loops = {0: dict(invariant=["file.pos <= len($B)", "file.pos - len(d) >= $p",
+                                "view_at(d, $B, file.pos - len(d))",
+                                "checksum == crc32_of($B, $p, file.pos - len(d), 0)",
+                                "len(d) > 0 or file.pos == len($B)"],
+                     shapes={"d": ViewOf("$B")},
+                     variant="len($B) - file.pos + len(d)")}
+    ensures = ["result == crc32_of($B, $p, len($B), 0)"]
